@@ -13,6 +13,8 @@ import json, os, re, shutil, subprocess, sys, tempfile, time, hashlib, glob
 
 VERIF = os.path.dirname(os.path.dirname(os.path.abspath(__file__)))
 REPO = os.environ.get("VERIF_REPO", "/repo")
+# evidence/ and replays/ go here (seed runs against scratch worktrees set VERIF_OUT so that they never touch /verif/evidence)
+OUT = os.environ.get("VERIF_OUT", VERIF)
 JAR = "/opt/veriftools/tla/tla2tools.jar:/opt/veriftools/tla/CommunityModules-deps.jar"
 NCPU = os.cpu_count() or 4
 
@@ -344,7 +346,7 @@ def finish(ctx, level, level_text=""):
             ctx.pid, pat, known[pat], len(vs), vs[0]["text"][:200]))
     rc = 0
     if real:
-        rdir = os.path.join(VERIF, "replays", ctx.pid)
+        rdir = os.path.join(OUT, "replays", ctx.pid)
         os.makedirs(rdir, exist_ok=True)
         seen = set()
         for i, v in enumerate(real[:20]):
@@ -378,8 +380,8 @@ def finish(ctx, level, level_text=""):
     cov.update(ctx.extra)
     ev = dict(property_id=ctx.pid, tier=ctx.tier, seed=ctx.seed, level=level, coverage=cov,
               assumptions=ctx.assumptions, wall_s=round(time.time() - ctx.t0, 2), violations=len(real))
-    os.makedirs(os.path.join(VERIF, "evidence"), exist_ok=True)
-    with open(os.path.join(VERIF, "evidence", ctx.pid + ".json"), "w") as fh:
+    os.makedirs(os.path.join(OUT, "evidence"), exist_ok=True)
+    with open(os.path.join(OUT, "evidence", ctx.pid + ".json"), "w") as fh:
         json.dump(ev, fh, indent=1, default=str)
     log("[%s] %s tier=%s seed=%d evaluations=%d distinct=%d states=%d traces=%d wall=%.1fs -> exit %d" % (
         ctx.pid, level, ctx.tier, ctx.seed, ctx.evaluations, len(ctx.distinct), ctx.states,
